@@ -16,6 +16,7 @@ Decided:
   C06.skip    the forward skip loops of the three readers take min(buffered amount, distance) in the reader's unit,
               consume exactly that (x channels for interleaved samples) and advance the position by it
   C06.end     beyond-end and before-start requests have live error exits; the byte reader returns the requested position
+  C06.cast    narrowing `as` casts in decode.rs are shown lossless or audited (castlib)
 Not decided: exact landing under arbitrary histories (value-level).
 """
 from rules.common import *
